@@ -2,4 +2,4 @@ From Capy Require Import Common.Util Common.Bits Model.NumOps Model.NumOpsF Spec
 Require Extraction.
 Require Import ExtrOcamlBasic.
 Extraction Language OCaml.
-Separate Extraction m_binary m_unary m_cast m_remat spec_binary_any known_binary_class spec_unop spec_cast_any known_class_any ty_max.
+Separate Extraction m_binary_v m_unary m_cast_v m_remat spec_binary_any known_binary_class spec_unop spec_cast_any known_class_any ty_max.
